@@ -25,6 +25,7 @@ def build(H, tier, seed):
     P.vc_poly_add(H)
     P.vc_rational(H)
     P.vc_zero_tests(H)
+    P.vc_poly_mul(H)
 
 
 def standins(tier, seed):
